@@ -180,6 +180,15 @@ def _first_ifexp(stmt, values=False):
     if values and isinstance(stmt, (ast.Assign, ast.Return)) and isinstance(
             stmt.value, ast.IfExp):
         return stmt.value
+    if values and isinstance(stmt, (ast.Assign, ast.Return)) and isinstance(
+            stmt.value, ast.Call) and isinstance(
+                stmt.value.func, ast.Name) and stmt.value.func.id in (
+                    "list", "tuple", "set", "frozenset", "int", "bool",
+                    "bytes", "str", "sorted") and len(
+                        stmt.value.args) == 1 and not stmt.value.keywords \
+            and isinstance(stmt.value.args[0], ast.IfExp):
+        # x = list(a if c else b): the test is evaluated first either way
+        return stmt.value.args[0]
     for n in _walk_no_nested(stmt):
         if isinstance(n, ast.IfExp) and isinstance(
                 n.body, (ast.Name, ast.Attribute)) and isinstance(
@@ -237,12 +246,22 @@ def hoist_suspensions(fn):
                             ast.Return)):
             v = s.value
         elif isinstance(s, ast.If):
-            # `if (yield X) is not None:` - the suspension is the first
-            # thing the test evaluates (no short circuit before it)
-            t = s.test
-            if isinstance(t, ast.UnaryOp) and isinstance(t.op, ast.Not):
-                t = t.operand
-            head = t.left if isinstance(t, ast.Compare) else t
+            # `if (yield X) is not None:` / `if (yield X).value:` - the
+            # suspension is the first thing the test evaluates (no short
+            # circuit before it)
+            head = s.test
+            while True:
+                if isinstance(head, ast.UnaryOp) and isinstance(
+                        head.op, ast.Not):
+                    head = head.operand
+                elif isinstance(head, ast.Compare):
+                    head = head.left
+                elif isinstance(head, ast.Attribute):
+                    head = head.value
+                elif isinstance(head, ast.Subscript):
+                    head = head.value
+                else:
+                    break
             if isinstance(head, (ast.Yield, ast.YieldFrom, ast.Await)):
                 v = ast.Tuple([s.test], ast.Load())
         return v
@@ -266,9 +285,25 @@ def hoist_suspensions(fn):
                 return n
         return None
 
+    def susp(e):
+        return any(isinstance(x, (ast.Yield, ast.YieldFrom, ast.Await))
+                   for x in _walk_no_nested(e))
+
     def block(stmts):
         out = []
         for s in stmts:
+            # `if A and B: S` (no else) is `if A: if B: S`; done when a
+            # later operand suspends, so that it can be given a name
+            while isinstance(s, ast.If) and not s.orelse and isinstance(
+                    s.test, ast.BoolOp) and isinstance(
+                        s.test.op, ast.And) and any(
+                            susp(v_) for v_ in s.test.values[1:]):
+                first, rest = s.test.values[0], s.test.values[1:]
+                inner = ast.copy_location(ast.If(
+                    rest[0] if len(rest) == 1 else ast.BoolOp(ast.And(),
+                                                               rest),
+                    s.body, []), s)
+                s = ast.copy_location(ast.If(first, [inner], []), s)
             for fld in ("body", "orelse", "finalbody"):
                 if isinstance(getattr(s, fld, None), list) and not isinstance(
                         s, (ast.FunctionDef, ast.AsyncFunctionDef,
